@@ -92,7 +92,14 @@ def gen_files(ctx, n_files):
         if not wt:
             continue
         tri = B.mk_triangle(wt)
-        b = B.impl_write(tri, scratch)
+        w = B.safe_write(tri, scratch)
+        if w[0] != "ok":
+            ctx.violation("impl-violation", f"to_binary raised {w[1]} on a valid triangle",
+                          {"wt": wt, "flavour": "trib", "write_error": w[1]}, found_input=True)
+            if len(ctx.violations) > 3:
+                break
+            continue
+        b = w[1]
         big_ok = (not ctx.quick) and len(out) % 40 == 7 and len(b) <= 5000
         if len(b) > cap and not big_ok:
             continue
@@ -178,6 +185,24 @@ def run(ctx):
                           "gzip oracle assumption broken: a truncated member did not deliver a prefix of the "
                           "plaintext followed by an exception", {"wt": wt, "cuts": mon_bad[:10], "flavour": "tribc"},
                           found_input=False)
+
+    # ---- path reuse: save A to P, load P, overwrite P with every strict prefix of B's file (and with B),
+    #      always loading the SAME path through the public Triangle.from_binary
+    rp = random.Random(ctx.seed * 97 + 3)
+    sc2 = B.Scratch(ctx.build)
+    n_pairs = 6 if ctx.quick else 40
+    n_reuse_bad = 0
+    for k in range(n_pairs):
+        pa, pb = B.gen_reuse_pair(rp)
+        for compress in ((False, True) if k % 3 == 0 else (False,)):
+            bad = B.path_reuse_oracle(pa, pb, sc2, compress=compress)
+            ctx.hist("path_reuse_pair")
+            ctx.count(evaluations=200, traces=1)
+            if bad is not None:
+                n_reuse_bad += 1
+                if n_reuse_bad <= 2:
+                    ctx.violation("impl-violation", bad[0], {"pair": [pa, pb], **bad[1]}, found_input=True)
+    sc2.cleanup()
 
     # ---- F9 probe: with a key index of low byte 0x88 a torn (and the whole) file reads as different data
     f9_codes, f9_bad = f9_res
@@ -285,6 +310,21 @@ def run(ctx):
 
 
 def replay(ctx, data):
+    if "pair" in data:
+        sc = B.Scratch(ctx.build)
+        try:
+            print(f"replaying a path-reuse sequence on {REPO}")
+            return B.replay_reuse(data, sc)
+        finally:
+            sc.cleanup()
+    if data.get("write_error"):
+        sc = B.Scratch(ctx.build)
+        try:
+            w = B.safe_write(B.mk_triangle(data["wt"]), sc)
+            print("to_binary on the recorded triangle:", "raises " + w[1] + ": PROPERTY FAILS" if w[0] != "ok" else "succeeds")
+            return 0 if w[0] == "ok" else 1
+        finally:
+            sc.cleanup()
     wt = data.get("wt")
     if wt is None or "cut" not in data:
         print("replay: no concrete cut point recorded:", data.get("what"))
@@ -296,10 +336,9 @@ def replay(ctx, data):
         tri = B.mk_triangle(wt)
         b = B.impl_write(tri, sc, compress=comp)
         if "file_hex" in data and bytes.fromhex(data["file_hex"]) != b:
-            print("note: the writer now produces different bytes than when the violation was recorded; "
-                  "replaying on the recorded file")
-            b = bytes.fromhex(data["file_hex"])
-        n = int(data["cut"])
+            print("note: the tree under test writes different bytes for this triangle than when the violation was "
+                  "recorded; the replay reads a prefix of the file written NOW (input = triangle + cut point)")
+        n = min(int(data["cut"]), max(len(b) - 1, 0))
         r = B.impl_read(b[:n], sc, compress=comp)
         print(f"replaying on {REPO}: {B.wt_summary(wt)}; reading the first {n} of {len(b)} bytes "
               f"({'compressed' if comp else 'plain'})")
